@@ -802,7 +802,11 @@ def _c16(work, v, tier, seed):
     r = vf.run_tlc(work, "MC_PhaseConc", cfg2, workers=4, timeout=600)
     if "StreamClosed" not in r.out or "violated" not in r.out:
         raise vf.ToolingError("sanity: a worker that forgets the WaitGroup on its error path should violate StreamClosed")
-    trace = vf.drive(work, "phase", n=35 if q else 1200, seed=seed, tier=tier, timeout=3000)
+    trace = vf.drive(work, "phase", n=35 if q else 1200, seed=seed, tier=tier, timeout=3000, env=cli_env(work, 1 if q else 2))
+    ncli = sum(1 for l in open(trace) if ':cli' in l)
+    if ncli == 0:
+        raise vf.ToolingError("no phasing case was run through the command line")
+    v.notes.append("command-line front: %d events from `goalign phasent --unaligned` / `goalign orf` judged like the library's" % ncli)
     res = vf.tlc_trace(work, "Trace_Phase", trace, cfg=write_cfg(work, "Trace_Phase.cfg", invariants=["Done"]), timeout=3000)
     phase_account(v, trace, res)
     trace = vf.drive(work, "phconc", n=40 if q else 400, seed=seed, tier=tier, timeout=3000)
